@@ -28,7 +28,9 @@ Upd(f, k, v) == [x \in (DOMAIN f) \cup {k} |-> IF x = k THEN v ELSE f[x]]
 Del(f, k)    == [x \in (DOMAIN f) \ {k} |-> f[x]]
 
 \* ---------------------------------------------------------------- sender
-\* e: c, plen, long, n, errNil, nd, sizes, clens, pads, idxs, tots, mids, hdrOk, concatOk, min, max
+\* e: c, plen, long, n, errNil, nd, sizes, clens, pads, idxs, tots, mids, hdrOk, concatOk, min, max,
+\*    fault (the harness made the inner socket refuse one datagram of this write: the write is expected to fail,
+\*           nd counts the datagrams that did go out), conc (other writes on the socket were in progress)
 WriteStep(m, e, ln) ==
   LET I == 1..e.nd
       shapeOk == Len(e.sizes) = e.nd /\ Len(e.clens) = e.nd /\ Len(e.pads) = e.nd
@@ -45,18 +47,18 @@ WriteStep(m, e, ln) ==
        [m EXCEPT
          !.mids = IF mid >= 0 THEN Upd(m.mids, e.c, Append(prev, mid)) ELSE m.mids,
          !.viol = VAll(m.viol, e, ln,
-          << <<"Lossless", ~e.errNil \/ e.n # e.plen \/ ~shapeOk \/ ~e.hdrOk \/ ~e.concatOk
+          << <<"Lossless", ~e.fault /\ (~e.errNil \/ e.n # e.plen \/ ~shapeOk \/ ~e.hdrOk \/ ~e.concatOk
                             \/ e.nd < 2 \/ e.nd > 8
                             \/ (shapeOk /\ ( {e.idxs[i] : i \in I} # 0..(e.nd - 1)
                                              \/ \E i \in I : e.tots[i] # e.nd \/ e.mids[i] # mid
                                                            \/ e.sizes[i] # Salt + Hdr + e.pads[i] + e.clens[i]
-                                             \/ SeqSum(e.clens) # e.plen ))>>,
+                                             \/ SeqSum(e.clens) # e.plen )))>>,
              <<"SizeRange", shapeOk /\ \E i \in I : Salt + Hdr + e.clens[i] <= e.max
                                                      /\ (e.sizes[i] < e.min \/ e.sizes[i] > e.max)>>,
              <<"MsgIdFresh", mid >= 0 /\ \E j \in 1..Len(recent) : recent[j] = mid>>,
-             <<"DRIFT_MsgIdSeq", mid >= 0 /\ Len(prev) > 0 /\ mid # (prev[Len(prev)] + 1) % 256>>,
+             <<"DRIFT_MsgIdSeq", ~e.conc /\ mid >= 0 /\ Len(prev) > 0 /\ mid # (prev[Len(prev)] + 1) % 256>>,
              <<"DRIFT_Pad", shapeOk /\ \E i \in I : Salt + Hdr + e.clens[i] > e.max /\ e.pads[i] # 0>>,
-             <<"DRIFT_ChunkSizes", shapeOk /\ e.nd >= 2 /\ \E i \in I :
+             <<"DRIFT_ChunkSizes", ~e.fault /\ shapeOk /\ e.nd >= 2 /\ \E i \in I :
                                      e.clens[i] # (IF e.idxs[i] = e.nd - 1 THEN e.plen - (e.nd - 1) * cs ELSE cs)>> >>)]
 
 \* ---------------------------------------------------------------- receiver
